@@ -872,7 +872,9 @@ func (s *scanner) scanNumber() float64 {
 		}
 	}
 	v, err := strconv.ParseFloat(s.text[i:i+c], 64)
-	if err != nil {
+	// a numeral beyond the range of a double is the nearest double, which is infinity (ParseFloat
+	// returns it together with ErrRange); anything else is a malformed number
+	if err != nil && !errors.Is(err, strconv.ErrRange) {
 		panic(fmt.Errorf("xpath: scanNumber parse float got error: %v", err))
 	}
 	return v
